@@ -567,6 +567,49 @@ def oracle(case, b, obs):
     return None
 
 
+def items_vs_views(prim, label):
+    """every way of getting at item i gives the vertices / normals the array views give for position i. Returns None or (sig, text)"""
+    import numpy
+    n = len(prim)
+    routes = [('[i]', [prim[i] for i in range(n)]), ('iteration', list(prim))]
+    for m in ('shapes', 'triangles'):
+        if hasattr(prim, m):
+            routes.append((m + '()', list(getattr(prim, m)())))
+    for name, items in routes:
+        if len(items) != n:
+            return ('views:%s:count' % label, '%s of a %s yields %d items, len() is %d' % (name, label, len(items), n))
+        for i, it in enumerate(items):
+            want_v = prim.vertex[prim.vertex_index[i]]
+            if not numpy.array_equal(numpy.asarray(it.vertices), want_v, equal_nan=True):
+                return ('views:%s:vertices' % label, 'item %d from %s of a %s carries vertices %s, the views give %s' % (i, name, label, numpy.asarray(it.vertices).tolist(), want_v.tolist()))
+            if prim.normal is not None and prim.normal_index is not None:
+                want_n = prim.normal[prim.normal_index[i]]
+                if it.normals is None or not numpy.array_equal(numpy.asarray(it.normals), want_n, equal_nan=True):
+                    return ('views:%s:normals' % label, 'item %d from %s of a %s carries normals %s, the views give %s'
+                            % (i, name, label, None if it.normals is None else numpy.asarray(it.normals).tolist(), want_n.tolist()))
+    return None
+
+
+def after_generate(b, kind):
+    """triangle sets: the views are replaced by generateNormals(); items fetched afterwards follow them (the set was traversed before)"""
+    if kind != 'tri' or len(b.p) == 0:
+        return None
+    for prim, label in ((b.bp, 'bound triangle set'), (b.p, 'triangle set')):
+        if not hasattr(prim, 'generateNormals'):
+            continue
+        list(prim)
+        if hasattr(prim, 'shapes'):
+            list(prim.shapes())
+        try:
+            prim.generateNormals()
+        except Exception as e:
+            return ('views:generate-raised', 'generateNormals() of a %s raised %s' % (label, type(e).__name__))
+        bad = items_vs_views(prim, label + ' after generateNormals()')
+        if bad:
+            return bad
+    return None
+
+
 def run_impl(case):
     """(answers, oracle failure or None)"""
     import warnings
@@ -588,7 +631,10 @@ def _run_impl(case):
         return ['ok len=%d' % len(b.p)], None
     answers, obs = observe(case, b)
     case['_via'] = b.via
-    return answers, oracle(case, b, obs)
+    bad = oracle(case, b, obs)
+    if bad is None:
+        bad = after_generate(b, case['kind'])
+    return answers, bad
 
 
 # ----------------------------------------------------------------------------- shrinking
